@@ -427,7 +427,8 @@ impl LogInnerManager {
         let mut last_index = self.indexs.last().unwrap();
         for item in self.indexs.iter().rev() {
             if item.log_index != last_index.log_index {
-                file_index_len += inner_sizeof_varint(last_index.log_index - item.log_index) as u64;
+                file_index_len +=
+                    inner_sizeof_varint(last_index.file_index - item.file_index) as u64;
                 last_index = item;
                 pop_index_count += 1;
             }
